@@ -116,7 +116,7 @@ class Volume:
 class Surface:
     """One side of a disc with one file system."""
 
-    def __init__(self, variant, tracks, spt, volumes, img_id=1, side=0, fill_seed=0, overrides=None):
+    def __init__(self, variant, tracks, spt, volumes, img_id=1, side=0, fill_seed=0, overrides=None, post=None):
         self.variant = variant   # 'acorn' | 'watford' | 'opus'
         self.tracks = tracks
         self.spt = spt
@@ -125,6 +125,7 @@ class Surface:
         self.side = side
         self.fill_seed = fill_seed
         self.overrides = overrides or {}   # lba(str) -> 256 bytes, applied after tagging (before catalogue)
+        self.post = post or {}             # byte offset(str) -> [and_mask, or_mask], applied last (hostile catalogue bits)
 
     @property
     def nsectors(self):
@@ -132,12 +133,12 @@ class Surface:
 
     def to_json(self):
         return {'variant': self.variant, 'tracks': self.tracks, 'spt': self.spt, 'volumes': [v.to_json() for v in self.volumes],
-                'img_id': self.img_id, 'side': self.side, 'fill_seed': self.fill_seed, 'overrides': self.overrides}
+                'img_id': self.img_id, 'side': self.side, 'fill_seed': self.fill_seed, 'overrides': self.overrides, 'post': self.post}
 
     @classmethod
     def from_json(cls, d):
         return cls(d['variant'], d['tracks'], d['spt'], [Volume.from_json(v) for v in d['volumes']], d['img_id'], d['side'],
-                   d['fill_seed'], d.get('overrides'))
+                   d['fill_seed'], d.get('overrides'), d.get('post'))
 
     def render(self):
         n = self.nsectors
@@ -185,6 +186,8 @@ class Surface:
                 if s not in used:
                     buf[s * 256:(s + 1) * 256] = bytes(256)
             buf[17 * 256:18 * 256] = bytes(256)
+        for k, (am, om) in self.post.items():
+            buf[int(k)] = (buf[int(k)] & am) | om
         return bytes(buf)
 
     def body(self, rendered, vol, f):
